@@ -66,7 +66,7 @@ pub fn specs() -> Vec<PropSpec> {
         spec("C15", crate::gen::c15, "Cluster scenario (world W1) with five authorities, one of them silent and played by the harness (its key signs well-formed messages with absurd content), healthy network and client load. Between 0.4 s and 2.5-4 s, 20-200 hostile inputs hit the consensus, mempool and transaction ports of the four real nodes: empty frames, random bytes, length prefixes above the 8 MiB codec limit, truncated frames followed by a close, bit-flipped / truncated / extended copies of real frames captured from the tap, enum tags out of range, vector lengths of 2^58..2^60, public-key strings that are not base64 or decode to fewer than 32 bytes, sync requests naming a mempool batch key of the shared store, batch requests naming a consensus block key, requests from unknown origins, votes / timeouts of round 2^64-1, a proposal for a round near 2^64 on top of genesis, a TC without votes, 1 MiB transactions. Afterwards every node is probed: it must still commit, answer a sync request and a batch request from its store, and batch a fresh transaction. Both build configurations are run.",
             |r| p(r, "C15.service-probe") > 0 && f(r, "hostile-frame") > 0,
             "hostile inputs were injected and the service probes ran",
-            &["C15.service-probe", "C15.service-ok.b", "C15.service-ok.m", "C15.service-ok.t", "C15.service-ok.c", "hostile.sync-request-for-batch-key", "hostile.batch-request-for-block-key", "hostile.kind12", "hostile.kind34"], 120, 4000),
+            &["C15.service-probe", "C15.service-ok.b", "C15.service-ok.m", "C15.service-ok.t", "C15.service-ok.c", "hostile.sync-request-for-batch-key", "hostile.batch-request-for-block-key", "hostile.kind12", "hostile.kind34", "hostile.sync-request-boundary-digest"], 120, 4000),
         PropSpec {
             id: "C16",
             level: "exploration",
